@@ -54,6 +54,10 @@ def main():
                         broken.append({'kind': 'translator', 'name': 'translator:' + target, 'detail': e})
                 # 1. prove
                 target = 'props/%s.vo' % mod.COQ_PROP
+                # the executable model first (-k: it must be available for the correspondence and the
+                # failing-input search even when a proof no longer compiles), then the property file
+                models = sorted('model/' + f[:-2] + '.vo' for f in os.listdir(os.path.join(fw.COQ, 'model')) if f.endswith('.v'))
+                fw.coq_make(['-k'] + models)
                 rc, log, dt = fw.coq_make([target])
                 coq['checker_cmd'] = 'coq/mk.sh -j16 %s  (coq_makefile full .vo build) + coqc Print Assumptions on every theorem of props/%s.v' % (target, mod.COQ_PROP)
                 coq['build_s'] = round(dt, 1)
